@@ -147,6 +147,7 @@ type Enc struct {
 	dryCache        []dryCached
 	recGhost        map[string]bool
 	bseqSeen        map[string]bool
+	qscope          [][2]string // quantified variables of the specification expression being evaluated: (symbol, sort)
 }
 
 func newEnc(P *Program, db *SpecDB, ti *TypeInfo) *Enc {
@@ -163,7 +164,25 @@ func (e *Enc) assert(t string) {
 	if t == "true" {
 		return
 	}
+	// facts produced while a specification quantifier is being evaluated (typing facts of loaded values, instance
+	// facts of byte windows, ensures of pure functions) may mention its bound variables: they hold for every value of
+	// them, so they are asserted universally
+	if bs := e.boundIn(t); len(bs) > 0 {
+		e.emit("(assert (forall (" + strings.Join(bs, " ") + ") " + t + "))")
+		return
+	}
 	e.emit("(assert " + t + ")")
+}
+
+// boundIn: binders (as "(name sort)") of the quantified variables in scope that occur in t.
+func (e *Enc) boundIn(t string) []string {
+	var out []string
+	for _, b := range e.qscope {
+		if strings.Contains(t, b[0]) {
+			out = append(out, "("+b[0]+" "+b[1]+")")
+		}
+	}
+	return out
 }
 
 // assertTyping: side facts (typing of loaded values). Produced while a quantifier body is being evaluated they may mention
@@ -228,7 +247,7 @@ func (e *Enc) fresh(hint, sort string) string {
 
 // define introduces a named constant equal to term (keeps formulas small).
 func (e *Enc) define(hint, sort, term string) string {
-	if len(term) < 40 {
+	if len(term) < 40 || len(e.boundIn(term)) > 0 {
 		return term
 	}
 	n := e.fresh(hint, sort)
@@ -370,9 +389,12 @@ func (e *Enc) typeAssume(st *State, lf Leaf, t string) {
 			e.assertTyping("(<= " + t + " " + st.alloc + ")")
 		}
 	case *types.Slice:
-		switch lf.Path {
-		case ".base":
+		switch {
+		case lf.Path == ".base":
 			e.assertTyping("(<= " + t + " " + st.alloc + ")")
+		case strings.HasSuffix(lf.Path, ".len") || strings.HasSuffix(lf.Path, ".cap") || strings.HasSuffix(lf.Path, ".off"):
+			// length, capacity (and our offset) of a slice are Go ints
+			e.assertTyping("(and (<= 0 " + t + ") (<= " + t + " 9223372036854775807))")
 		}
 	}
 }
@@ -776,7 +798,7 @@ func (e *Enc) mergeStates(hint string, sts []*State, conds []string) *State {
 }
 
 func (e *Enc) nameBool(hint, term string) string {
-	if len(term) < 48 {
+	if len(term) < 48 || len(e.boundIn(term)) > 0 {
 		return term
 	}
 	n := e.fresh(hint, "Bool")
